@@ -10,6 +10,7 @@
   The C++ harness (`/verif/harness`) answers the same requests by calling the real manif.
 -/
 import ManifModel.Cast
+import ManifModel.JetRun
 open Manif
 
 def hexDigit (c : Char) : Option Nat :=
@@ -59,7 +60,13 @@ def respond (f32 : Bool) (line : String) : String :=
       match parse toks [] [] with
       | none => "bad-op"
       | some (fs, is) =>
-        if op == "cast" then
+        if op.startsWith "jet_" then
+          -- the model over dual numbers (Dual Float), one run per direction: see JetRun.lean
+          match runJet (K := Float) grp dbg (op.drop 4).toString mask fs with
+          | none => "bad-op"
+          | some (.error e) => "err " ++ e.name
+          | some (.ok out) => " ".intercalate ("ok" :: out.map floatHex)
+        else if op == "cast" then
           -- `cast<>()` to the other floating-point type: float -> double in `f32` mode, else double -> float
           if f32 then
             match runCast (K := Float32) (K' := Float) Float32.toFloat grp dbg (fs.map Float.toFloat32) with
